@@ -476,6 +476,23 @@ def clause11b_bitfield_copies(ctx, P):
             (bad[0].srcname, bad[3], bad[2], bad[5], bad[4], bad[1].loc)) if bad else "%d bit-field to bit-field copies keep their width" % n)
 
 
+def clause14_signed_shifts(ctx, P):
+    """'executes undefined behaviour' at the level of the syntax tree (the IR has no signedness): no own or bundled unit shifts a
+    value of type int left into or past its sign bit where that can be seen from the types - an unsigned char / unsigned short
+    operand that the usual promotions turned into int, shifted by a constant that can move a set bit to bit 31 (b << 24 with
+    b >= 0x80), or an int literal shifted by 31.  Matches of sa/lints/shift.cq over every unit of the compilation database,
+    computed by the front end; the query's positive example must match on every run."""
+    l = P.facts.get("macros", {}).get("__lints__")
+    if not l or l.get("shift_positive") != [4, 5, 6]:
+        raise AnalysisBroken("shift lint: the positive example did not match as expected (%s)" % (l or {}).get("shift_positive"))
+    hits = l["shift"]
+    ctx.count("shift_lint_hits", len(hits))
+    ctx.ob("C06.11 R-UB", "all-units", "no-shift-into-the-sign-bit", not hits,
+           "%s: a promoted unsigned char/short (or an int literal) is shifted left so that a set bit reaches the sign bit of int - "
+           "undefined behaviour (e.g. the SHA-1 padding byte 0x80 << 24 on every websocket handshake); cast the operand to an unsigned "
+           "32-bit type first" % ", ".join(hits[:6]))
+
+
 # printf-like functions: name -> index of the format argument
 FORMATTED = {"printf": 0, "fprintf": 1, "dprintf": 1, "sprintf": 1, "snprintf": 2, "vprintf": 0, "vfprintf": 1, "vsprintf": 1, "vsnprintf": 2,
              "syslog": 1, "vsyslog": 1, "log_err": 0, "log_warn": 0, "log_info": 0, "log_peer_err": 1, "log_peer_info": 1}
@@ -558,6 +575,7 @@ def run(ctx):
         clause11b_bitfield_copies(ctx, P)
         clause12_valuestring(ctx, P)
         clause13_format_strings(ctx, P)
+        clause14_signed_shifts(ctx, P)
         clause1_snprintf(ctx, P)
         c16.clause6_slots(ctx, P, cg)
         c12.clause2_callbacks(ctx, P, cg)
